@@ -1,5 +1,6 @@
 (* C03 driver.
-   (S (ns) (name) (name) ...)  loads a schema ((s ...) = the same, answer just (ok)): schema namespace, names in registration order;
+   (S fixed (ns) (name) (name) ...)  loads a schema ((s ...) = the same, answer just (ok));
+        fixed = 1: the repaired code, 0: the code before the two repairs; schema namespace, names in registration order;
         answer: (ok wf table names dups) with table = list of ((key) (entry-name)), or (exn E)
    (Q (text))  one tag text against the current schema;
         answer: (F (entry-name) (remainder) (ns) (short) (long) (base) (short_base) (org_base) (extension) vc)
@@ -11,6 +12,7 @@ let exn_sx (e : exn) : sx = A (match e with
 
 let cur_table : table option ref = ref None
 let cur_ns : str ref = ref []
+let cur_fx : fixes ref = ref repaired
 
 let forms_sx (h : hedtag) : sx list =
   [str_sx h.ht_ns; str_sx (short_tag h); str_sx (long_tag h); str_sx (base_tag h);
@@ -19,35 +21,37 @@ let forms_sx (h : hedtag) : sx list =
 let () = main_loop (fun x ->
   ignore (force_types O N0);
   match x with
-  | L (A "S" :: ns :: names) ->
+  | L (A "S" :: fixed :: ns :: names) ->
     let names = List.map sx_str names in
     cur_ns := sx_str ns;
-    (match build_table ascii_lower names with
+    cur_fx := (if sx_bool fixed then repaired else unrepaired);
+    (match build_table py_fold names with
      | Exn e -> cur_table := None; L [A "exn"; exn_sx e]
      | Ok t ->
        cur_table := Some t;
-       L [A "ok"; bool_sx (wFschema ascii_lower names);
+       L [A "ok"; bool_sx (wFschema py_fold names);
           L (List.map (fun (k, e) -> L [str_sx k; str_sx e.e_name]) t.long_form_tags);
           L (List.map str_sx t.all_names);
           L (List.map (fun (k, n) -> L [str_sx k; str_sx n]) t.duplicate_names)])
-  | L (A "s" :: ns :: names) ->
+  | L (A "s" :: fixed :: ns :: names) ->
     (* load without reporting the table *)
     let names = List.map sx_str names in
     cur_ns := sx_str ns;
-    (match build_table ascii_lower names with
+    cur_fx := (if sx_bool fixed then repaired else unrepaired);
+    (match build_table py_fold names with
      | Exn e -> cur_table := None; L [A "exn"; exn_sx e]
      | Ok t -> cur_table := Some t; L [A "ok"])
   | L [A "Q"; text] ->
     (match !cur_table with
      | None -> L [A "ERR"; A "no-schema"]
      | Some t ->
-       let h = hedtag_init ascii_lower t !cur_ns (sx_str text) in
+       let h = hedtag_init py_fold !cur_fx t !cur_ns (sx_str text) in
        (match h.ht_entry with
         | Some e ->
-          let vc = (match takes_value_child ascii_lower t e with Some _ -> A "1" | None -> A "0") in
+          let vc = (match takes_value_child py_fold t e with Some _ -> A "1" | None -> A "0") in
           L ([A "F"; str_sx e.e_name; str_sx h.ht_ext] @ forms_sx h @ [vc])
         | None ->
-          let err = (match find_tag_entry ascii_lower t !cur_ns h.ht_text h.ht_ns with
+          let err = (match find_tag_entry py_fold !cur_fx t !cur_ns h.ht_text h.ht_ns with
                      | NotFound LibraryUnmatched -> "LibraryUnmatched"
                      | NotFound NoValidTagFound -> "NoValidTagFound"
                      | NotFound InvalidParentNode -> "InvalidParentNode"
